@@ -2,6 +2,7 @@ CONSTANTS
   Good <- MCGood
   Bad <- MCBad
   MaxOps = 5
+  WithGet = FALSE
 INIT Init
 NEXT Next
 INVARIANTS BatchEq Idempotent NamesUnique Export
